@@ -449,10 +449,26 @@ class SessionStream(Stream):
         while len(sessions) < budget:
             n = rng.choice([1, 2, 3, 4, 6, 8])
             reqs = [self._request(rng, k + 1) for k in range(n)]
+            # histories that matter for an evaluator reused across cells: the same cell (valid or not) executed again,
+            # and is_complete_request for a cell that is executed next
+            for i in range(1, n):
+                r = rng.random()
+                prev = reqs[i - 1]
+                if prev["msg_type"] == "execute_request" and r < 0.2:
+                    reqs[i] = dict(prev, nonce=rng.randrange(10**6))
+                elif reqs[i]["msg_type"] == "execute_request" and r < 0.35:
+                    reqs[i - 1] = {"nonce": rng.randrange(10**6), "ids": prev["ids"], "msg_type": "is_complete_request",
+                                   "content": {"code": reqs[i]["content"]["code"]}, "outcome": "ExNone", "stdout": 0, "store": True}
             if rng.random() < 0.5:
                 i = rng.randrange(n)
                 reqs[i] = self._corrupt(rng, reqs[i])
-            sessions.append({"key": "k%08x" % rng.randrange(2**32), "reqs": reqs})
+            sess = {"key": "k%08x" % rng.randrange(2**32), "reqs": reqs}
+            if rng.random() < 0.35:
+                # a second iopub subscriber that may close its connection in the middle of the session
+                sess["second_sub"] = True
+                if rng.random() < 0.7:
+                    sess["second_sub_leaves_before"] = rng.randrange(0, n)
+            sessions.append(sess)
         return sessions
 
     def run_impl(self, ctx, cases):
@@ -480,7 +496,8 @@ class SessionStream(Stream):
 
     def kind(self, case, obs):
         bad = any(("sign_key" in r or "mutations" in r) for r in case["reqs"])
-        return ("corrupted" if bad else "valid") + f"/{len(case['reqs'])}req"
+        sub = "/2sub-leaves" if "second_sub_leaves_before" in case else ("/2sub" if case.get("second_sub") else "")
+        return ("corrupted" if bad else "valid") + f"/{len(case['reqs'])}req" + sub
 
     def describe(self, case, obs):
         return {"requests": [{k: v for k, v in r.items() if k in ("msg_type", "content", "sign_key", "mutations", "store")} for r in case["reqs"]],
